@@ -15,11 +15,18 @@ Lines == [kind : {"line"}, curve : Small \cup Thin, tol2 : {0, 3, 7}]
    floating point) and divides the result again, so the oracle is unchanged while any absolute threshold inside the
    implementation meets coordinates of size 2^-10 .. 2^30 *)
 Scaled == [kind : {"line"}, curve : {s \in Thin : Hash(s, 1) % (3 * M2) = 0}, tol2 : {3, 7}, sh : {-10, 30}]
+(* shallow crossings: dropping the dip vertex would give a chord that a later, almost parallel segment crosses (crossing
+   angle below 2 degrees), so the vertex has to stay; both axis orientations; simplicity of the input is decided by TLC *)
+ShallowC(d, a, b, sw) == LET H == 40
+                             pts == << <<0, H>>, <<50, H - d>>, <<100, H>>, <<100, H + 5>>, <<a, H + 1>>, <<b, H - 1>> >>
+                         IN IF sw THEN [x \in 1..6 |-> <<pts[x][2], pts[x][1]>>] ELSE pts
+Shallow == {[kind |-> "line", curve |-> ShallowC(d, a, b, sw), tol2 |-> d * d + 3] :
+               d \in {10, 20, 30}, a \in {2, 10, 30}, b \in {98, 90, 66}, sw \in BOOLEAN}
 (* closed rings and multi-geometries built from the small curves *)
 Close(s) == IF Len(s) = 0 THEN s ELSE Append(s, s[1])
 Rings == {Close(s) : s \in {t \in [1..3 -> Grid(G1)] : NoRepeat(t)} \cup {t \in [1..4 -> Grid(G1)] : Hash(t, 1) % 5 = 0 /\ NoRepeat(t)}}
 Polys == [kind : {"poly"}, rings : {<<r>> : r \in Rings} \cup {<<r, <<>>>> : r \in {x \in Rings : Hash(x, 1) % 7 = 0}}, tol2 : {0, 3}]
 Multis == [kind : {"multi"}, lines : {<<a, b>> : a \in {x \in Small : Hash(x, 1) % 11 = 0}, b \in {x \in Small : Hash(x, 1) % 13 = 1}}, tol2 : {3}]
-GenInit == c \in Lines \cup Scaled \cup Polys \cup Multis /\ PrintT(ToJson(c))
+GenInit == c \in Lines \cup Scaled \cup {x \in Shallow : Simple(x.curve)} \cup Polys \cup Multis /\ PrintT(ToJson(c))
 GenSpec == GenInit /\ [][UNCHANGED c]_c
 =============================================================================
